@@ -60,6 +60,9 @@ Definition hist_le (syms freqs : list Z) : Prop :=
 Definition hist_eq (syms freqs : list Z) : Prop :=
   forall s, 0 <= s -> zcount s syms = nth (Z.to_nat s) freqs 0.
 
+(** The number of used symbols of a frequency table (entries are uint64 counts, so min(1, f) is 1 exactly for f > 0). *)
+Definition nused (freqs : list Z) : Z := zsum (map (Z.min 1) freqs).
+
 (** * A checker for [ebits_ok] that runs in the extracted model (used by the driver to test, case by case, the
       accuracy assumption made about the double/libm computation of num_expected_bits_).
     [log2_lo k p]: a lower bound of 2^k * log2 p in fixed point, by repeated squaring of the mantissa
